@@ -15,6 +15,7 @@ import (
 	"verifharness/kit/proc"
 	"verifharness/kit/report"
 	"verifharness/kit/sopx"
+	"verifharness/kit/txn"
 	"verifharness/props/conc"
 )
 
@@ -114,13 +115,15 @@ func history(i int, seed int64, _ []string) any {
 			// solo transaction with one injected L2 failure somewhere in its commit
 			id := fmt.Sprintf("T%d", tid)
 			tid++
-			labels := []string{"l2.SetStruct[storeinfo]", "l2.GetStructs[lock]", "l2.SetStructs[lock]", "l2.Lock", "l2.IsLocked", "l2.DualLock", "l2.GetStructs[handle]", "l2.Unlock", "l2.SetStruct[handle]", "l2.Delete[lock]"}
+			labels := []string{"l2.SetStruct[storeinfo]", "l2.GetStructs[lock]", "l2.SetStructs[lock]", "l2.Lock", "l2.IsLocked", "l2.DualLock", "l2.GetStructs[handle]", "l2.Unlock", "l2.SetStruct[handle]", "l2.Delete[lock]",
+				// backend calls (reached because the solo transaction runs on the mirror path)
+				"sr.Update", "sr.Update", "tlog.Add(9)", "tlog.Add(10)", "tlog.Add(11)", "plog.Add", "reg.UpdateNoLocks(true)", "reg.UpdateNoLocks(false)", "blob.Add", "tlog.Add(6)", "tlog.Add(8)", "reg.Add"}
 			p := deco.NewPlan(labels[rnd.Intn(len(labels))], 1+rnd.Intn(2), deco.FailBefore)
 			p.NoTrace = true
 			old := deco.Current()
 			deco.Install(p)
 			p.Arm()
-			recs, ev := conc.RunRound(res.Procs, [][]func(*conc.Clock) conc.TxnRec{{mkTxn(id, false, 1+rnd.Intn(5), rnd)}})
+			recs, ev := conc.RunRound(res.Procs, [][]func(*conc.Clock) conc.TxnRec{{mkMirrorTxn(dir, id, 1+rnd.Intn(5), rnd, keyspace)}})
 			p.Disarm()
 			deco.Install(old)
 			allEvents = append(allEvents, ev...)
@@ -175,6 +178,55 @@ func history(i int, seed int64, _ []string) any {
 	return res
 }
 
+// mkMirrorTxn builds the same kind of add/remove transaction on the mirror path, so that an injected
+// failure can hit the store repository, registry, blob store and log calls of its commit as well.
+func mkMirrorTxn(dir, id string, nops int, r2 interface{ Intn(int) int }, keyspace int) func(*conc.Clock) conc.TxnRec {
+	type op struct {
+		add bool
+		k   string
+	}
+	var ops []op
+	for j := 0; j < nops; j++ {
+		ops = append(ops, op{r2.Intn(3) != 0, fmt.Sprintf("k%04d", r2.Intn(keyspace)*3)})
+	}
+	return func(clock *conc.Clock) conc.TxnRec {
+		rec := conc.TxnRec{ID: id}
+		mir := txn.Mirror{Dir: dir}
+		t, err := mir.Begin(sop.ForWriting, time.Minute)
+		if err != nil {
+			rec.OpErr = err.Error()
+			return rec
+		}
+		b, err := mir.Open(t, "s")
+		if err != nil {
+			rec.OpErr = err.Error()
+			t.Rollback(conc.Ctx)
+			return rec
+		}
+		for _, o := range ops {
+			var err error
+			if o.add {
+				_, err = b.Add(conc.Ctx, o.k, id)
+			} else {
+				_, err = b.Remove(conc.Ctx, o.k)
+			}
+			if err != nil {
+				rec.OpErr = err.Error()
+				t.Rollback(conc.Ctx)
+				return rec
+			}
+		}
+		rec.CallSeq = clock.Tick()
+		cctx, cancel := context.WithTimeout(conc.Ctx, 8*time.Second)
+		if err := t.Commit(cctx); err != nil {
+			rec.Err = err.Error()
+		}
+		cancel()
+		rec.RetSeq = clock.Tick()
+		return rec
+	}
+}
+
 func Run(r *report.Run) int {
 	n := r.Pick(60, 800)
 	lines, died := par.Run(r, "c06-worker", 16, n, 1700, nil)
@@ -210,6 +262,6 @@ func Run(r *report.Run) int {
 	return r.Finish(rule, assumptions, 10)
 }
 
-const rule = "histories of 4-6 waves on a seeded store (public path): waves of 2-4 concurrent add/remove transactions over a 40-key space (some roll back voluntarily), and solo transactions whose commit gets one injected L2 failure (store-info, lock, handle cache calls); oracle at quiescence in a fresh transaction: Count() == number of items of the ordered scan (forward and backward); fingerprint = commit-order signature of the whole history; non-trivial = >=2 commits and >=1 failed or rolled-back transaction"
+const rule = "histories of 4-6 waves on a seeded store (public path): waves of 2-4 concurrent add/remove transactions over a 40-key space (some roll back voluntarily), and solo mirror-path transactions whose commit gets one injected failure (L2 store-info/lock/handle cache calls, StoreRepository.Update, registry, blob store, transaction/priority log calls); oracle at quiescence in a fresh transaction: Count() == number of items of the ordered scan (forward and backward); fingerprint = commit-order signature of the whole history; non-trivial = >=2 commits and >=1 failed or rolled-back transaction"
 
 var assumptions = []string{"standalone in-memory L2", "checked only at quiescence (the early write of the count during phase 1 is a C03 matter)", "crash histories belong to C08"}
